@@ -1214,11 +1214,13 @@ TmEnd == lw.valid /\ W.ev = "PassEnd" /\ IsTmActor(W.actor) /\ pass[W.actor].has
          /\ pass[W.actor].target = "ObjectTemplate/ns1/t1"
 TM == pass[W.actor]
 TmBlocked == scen.row >= 0 /\ "class" \in DOMAIN scen
-             /\ (scen.class \in {"bad", "targetOtherNS", "sourceOtherNS"} \/ SrcA \in TM.nf)
+             /\ (scen.class \in {"bad", "targetOtherNS", "sourceOtherNS", "clusterSrc"} \/ SrcA \in TM.nf)
 
 Inv_C18_InvalidNoWrite ==
     (TmEnd /\ ~TM.apiErr /\ TmBlocked)
     => /\ \A k \in Range(TM.writes) : store[k].kind # "ConfigMap" \/ k \in {SrcA, SrcB}     \* only source label patches
+       \* a source of a cluster-scoped kind is outside a namespaced template's reach: not even labelled
+       /\ (scen.class = "clusterSrc") => Range(TM.writes) = {}
        /\ W.res = "ok" /\ TM.statusWritten /\ CondTrue(TM.status.cr, "package-operator.run/Invalid")
 
 \* deleting the ObjectTemplate releases its watches
